@@ -26,7 +26,7 @@ NS = 10 ** 9
 
 
 def load_policer():
-    path = os.path.join(build.REPO, "src", "gufo", "snmp", "policer.py")
+    path = os.path.join(build.ensure_pyonly(), "policer.py")
     spec = importlib.util.spec_from_file_location("verif_policer_under_test", path)
     mod = importlib.util.module_from_spec(spec)
     spec.loader.exec_module(mod)
